@@ -1932,4 +1932,51 @@ func c10LiveInstall(c *Ctx) {
 		return hit
 	}
 	c.dominated(rule, "async-install-only-for-the-live-entry@processBpfUpdateTask", f, install, checks, "the asynchronous install (cacheAccessCallback)", "a look-up of the entry in dnsCache (is the queued entry still the stored one?)")
+	// the look-up decides by identity: the stored value is compared with the queued entry (a key that was refreshed
+	// meanwhile holds another entry, with other addresses)
+	loaded := map[types.Object]bool{}
+	ast.Inspect(f.Body, func(m ast.Node) bool {
+		if as, ok := m.(*ast.AssignStmt); ok && len(as.Rhs) == 1 && len(as.Lhs) >= 1 {
+			if call, ok := ast.Unparen(as.Rhs[0]).(*ast.CallExpr); ok {
+				if recv, name, isM := methodCall(call); isM && name == "Load" && strings.HasSuffix(core.ExprStr(recv), ".dnsCache") {
+					if id, ok := as.Lhs[0].(*ast.Ident); ok && id.Name != "_" {
+						loaded[info.ObjectOf(id)] = true
+					}
+				}
+			}
+		}
+		return true
+	})
+	byIdentity := false
+	unwrap := func(e ast.Expr) ast.Expr {
+		for {
+			e = ast.Unparen(e)
+			if call, ok := e.(*ast.CallExpr); ok && len(call.Args) == 1 {
+				if tv, ok := info.Types[call.Fun]; ok && tv.IsType() {
+					e = call.Args[0]
+					continue
+				}
+			}
+			if ta, ok := e.(*ast.TypeAssertExpr); ok {
+				e = ta.X
+				continue
+			}
+			return e
+		}
+	}
+	ast.Inspect(f.Body, func(m ast.Node) bool {
+		be, ok := m.(*ast.BinaryExpr)
+		if !ok || (be.Op != token.EQL && be.Op != token.NEQ) {
+			return true
+		}
+		for _, pr := range [][2]ast.Expr{{be.X, be.Y}, {be.Y, be.X}} {
+			a, b := unwrap(pr[0]), unwrap(pr[1])
+			if id, ok := a.(*ast.Ident); ok && loaded[info.ObjectOf(id)] && core.FieldOf(info, b) == "bpfUpdateTask.cache" {
+				byIdentity = true
+			}
+		}
+		return true
+	})
+	c.R.Checkf(rule, "live-entry-test-is-by-identity@processBpfUpdateTask", c.pos(f.Pos()), byIdentity,
+		"the value stored under the owner key is compared with the queued entry itself: presence of the key alone lets a stale task overwrite the owner with the addresses of an entry that a refresh has replaced")
 }
